@@ -648,7 +648,17 @@ def w_manager_history(ctx, rng, i):
             import menpo.image as _mi6
             if isinstance(owner, _mi6.Image) and not isinstance(owner, _mi6.BooleanImage) and owner.has_landmarks:
                 cp = bool(rng.random() < 0.5)
-                conv = owner.as_unmasked(copy=cp) if isinstance(owner, _mi6.MaskedImage) else owner.as_masked(copy=cp)
+                cv_ = int(rng.integers(0, 5))
+                if cv_ == 0 or owner.n_dims != 2:
+                    conv = owner.as_unmasked(copy=cp) if isinstance(owner, _mi6.MaskedImage) else owner.as_masked(copy=cp)
+                elif cv_ == 1:
+                    conv = owner.resize(owner.shape)                # (re-framings that leave every point where it is)
+                elif cv_ == 2:
+                    conv = owner.rescale(1.0)
+                elif cv_ == 3:
+                    conv = owner.crop(np.zeros(2), np.array(owner.shape, dtype=float))
+                else:
+                    conv = owner.zoom(1.0)
                 before = digest(owner.landmarks)
                 ctx.tap("landmarks_of_a_converted_owner", "calls"); ctx.tap("landmarks_of_a_converted_owner", "checked")
                 if conv.landmarks.n_groups:
